@@ -72,7 +72,7 @@ def run(ctx):
     ctx.notes["constants"] = cfg
 
     # ---- spec -> code
-    r = ctx.tlc("CanonJSON_gen", cfg, workers=min(6, ctx.workers), timeout=2400, heap=None if quick else "24g")
+    r = ctx.tlc("CanonJSON_gen", cfg, workers=min(6 if quick else 12, ctx.workers), timeout=2400, heap=None if quick else "24g")
     recs, args = _split(r.records)
     ctx.replay_and_compare("c01", recs, args=args, pkg="c01")
 
